@@ -82,21 +82,10 @@ impl OutputFormat for TundraDraw {
                     return Err(SavingError::Only8BitCharactersSupported.into());
                 }
 
-                if (1..=6).contains(&ch) {
-                    // fake color change to represent control characters
-                    result.push(TUNDRA_COLOR_FOREGROUND);
-                    result.push(ch as u8);
-
-                    let rgb = buf.palette.get_rgb(attr.get_foreground());
-                    result.push(0);
-                    result.push(rgb.0);
-                    result.push(rgb.1);
-                    result.push(rgb.2);
-                    continue;
-                }
-
                 let mut cmd = 0;
-                let write_foreground = buf.palette.get_color(attr.get_foreground()).get_rgb() != buf.palette.get_color(cur_attr.get_foreground()).get_rgb()
+                // characters 1..=6 are command codes, they are always written with a (possibly unchanged) foreground color
+                let write_foreground = (1..=6).contains(&ch)
+                    || buf.palette.get_color(attr.get_foreground()).get_rgb() != buf.palette.get_color(cur_attr.get_foreground()).get_rgb()
                     || attr.is_bold() != cur_attr.is_bold();
                 if write_foreground {
                     cmd |= TUNDRA_COLOR_FOREGROUND;
@@ -173,14 +162,15 @@ impl OutputFormat for TundraDraw {
         result.ice_mode = IceMode::Ice;
 
         let mut pos = Position::default();
-        let mut attr = TextAttribute::default();
+        // the writer starts with black on black as well
+        let mut attr = TextAttribute::from_u8(0, result.ice_mode);
 
         while o < data.len() {
             let mut cmd = data[o];
             o += 1;
             if cmd == TUNDRA_POSITION {
                 pos.y = to_u32(&data[o..]);
-                if pos.y >= (u16::MAX) as i32 {
+                if pos.y < 0 || pos.y >= (u16::MAX) as i32 {
                     return Err(io::Error::new(
                         io::ErrorKind::InvalidData,
                         format!(
@@ -193,7 +183,7 @@ impl OutputFormat for TundraDraw {
                 }
                 o += 4;
                 pos.x = to_u32(&data[o..]);
-                if pos.x >= result.get_width() {
+                if pos.x < 0 || pos.x >= result.get_width() {
                     return Err(anyhow::anyhow!(
                         "Invalid Tundra Draw file.\nJump x position {} out of bounds (width is {})",
                         pos.x,
